@@ -387,8 +387,8 @@ class PyExec:
             if v.cls in ("list", "strbuilder"):
                 return st.heap.len(v.addr) != 0
             if v.cls == "set":
-                # non-empty: exists member; contracts expose emptiness through ghost 'set.nonempty'
-                raise OutOfSubset("truthiness of a set (use len() or an explicit emptiness contract)")
+                x = z3.Int("x!nonempty")
+                return z3.Exists([x], st.heap.mem(v.addr, x))        # a set is true iff it has a member
             return z3.BoolVal(True)
         if isinstance(v, PStr):
             return z3.BoolVal(len(v.codes) > 0)
@@ -1578,6 +1578,11 @@ class PyExec:
         enum = (isinstance(n.iter, ast.Call) and isinstance(n.iter.func, ast.Name) and n.iter.func.id == "enumerate"
                 and len(n.iter.args) == 1 and not n.iter.keywords)
         it = self.ev(st, n.iter.args[0] if enum else n.iter)
+        if isinstance(it, POpt):
+            self.guard(st, "TypeError.iterate_None", z3.Not(it.is_none), n)
+            it = it.ref
+        if isinstance(it, PRef) and it.cls == "set" and not enum:
+            return self.for_set(st, n, ordinal, inv, it)
         if not (isinstance(it, PRef) and it.cls == "list"):
             raise OutOfSubset("for over %s" % it.kind)
         if inv is None:
@@ -1625,6 +1630,41 @@ class PyExec:
             vkind = self.opt.get("dict_val_kind", "any")
             self.assign(s, n.target, PTuple([PAny(k), self.cell_to_val(vkind, s.heap.val(d.addr, k))]), n)
         return self.loop_inv(st, n, ordinal, inv, cond, n.body, pre_body, extra_mod=[sname] + names_in_target(n.target))
+
+    def for_set(self, st, n, ordinal, inv, it):
+        """for x in s (a set): the iteration order is arbitrary.  Ghost set $seen<n> of the members visited so far; each iteration
+        picks an arbitrary unvisited member; the loop ends when every member has been visited.  CPython raises RuntimeError when
+        the set changes size during the iteration: `the iterated set is unchanged` is added to the invariant as a clause."""
+        if inv is None:
+            raise OutOfSubset("set loop #%d needs an invariant" % ordinal)
+        sname = "$seen%d" % ordinal
+        st.vars[sname] = PGhost(z3.K(IntSort, z3.BoolVal(False)))
+        xq = z3.Int("x!iter%d" % ordinal)
+        a = it.addr
+
+        def cond(s):
+            return z3.Exists([xq], z3.And(s.heap.mem(a, xq), z3.Not(z3.Select(s.vars[sname].t, xq))))
+
+        def pre_body(s):
+            x = self.fresh("member@loop%d" % ordinal)
+            s.path.append(z3.And(s.heap.mem(a, x), z3.Not(z3.Select(s.vars[sname].t, x))))
+            s.vars[sname] = PGhost(z3.Store(s.vars[sname].t, x, z3.BoolVal(True)))
+            self.assign(s, n.target, self.cell_to_val(self.opt.get("set_elem_kind", "any"), x), n)
+
+        class _Inv:
+            modifies_heap = getattr(inv, "modifies_heap", None)
+            ghost_names = getattr(inv, "ghost_names", ())
+
+            def holds(_, ex, s, s0):
+                return list(inv.holds(ex, s, s0)) + [("the iterated set is unchanged (else RuntimeError)", s.heap.memset(a) == s0.heap.memset(a)),
+                                                     ("only members have been visited",
+                                                      z3.ForAll([xq], z3.Implies(z3.Select(s.vars[sname].t, xq), s.heap.mem(a, xq))))]
+        w = _Inv()
+        if hasattr(inv, "decreases"):
+            w.decreases = inv.decreases
+        if hasattr(inv, "ghost_init"):
+            w.ghost_init = inv.ghost_init
+        return self.loop_inv(st, n, ordinal, w, cond, n.body, pre_body, extra_mod=[sname] + names_in_target(n.target))
 
     def loop_inv(self, st, n, ordinal, inv, cond, body, pre_body, extra_mod=()):
         """inv: object with holds(ex, st, st0) -> [(label, Bool)], optional decreases(ex, st), optional
